@@ -18,7 +18,7 @@ RULE = ("zoo surfaces with 0-6 border loops and 1-2 components (chords between b
         "degrees and of acos(0.8) at distances 1e-1 ... 1e-7 rad, crease declared hard or not) and lifted/closed triangle meshes for the detector, with "
         "options only_border / flag_corners / corner_order; non-trivial = >= 2 border loops, or a hinge within 1e-3 rad of a threshold; distinct = input hash")
 REQUIRED = {"cycle": 400, "cycle_all": 80, "polyline": 60, "features": 120, "derived": 100}
-CASE_TIMEOUT = {"quick": 60.0, "thorough": 600.0}
+CASE_TIMEOUT = {"quick": 30.0, "thorough": 600.0}
 ASSUMPTIONS = ["neighbourhood sorting is on (the border walk legitimately relies on sorted rings; the switch belongs to C01's quantifier)",
                "decisions whose normal dot product is within 1e-9 of a threshold are not judged",
                "the surface-to-polyline index map is accepted in either direction provided it is a coordinate-consistent bijection"]
